@@ -166,6 +166,13 @@ def run(ctx, rep):
                     continue
                 rep.fail('P3', key, f"panic arm is live: variant(s) {sorted(live)} are constructed at {list(live.values())[0][:2]}; reached via {path}", site)
                 continue
+            # panic arm over an enum parameter that no caller ever passes with that variant (feature-gated CLI choices):
+            # every caller builds the argument in its own body from a fixed set of variant constructors
+            if s['kind'] in ('panic', 'unreachable', 'todo', 'unimplemented') and last_arm and last_arm['variants'] and len(last_arm['variants']) == 1 and '::' in last_arm['variants'][0]:
+                dead = dead_param_variant(prog, s, last_arm)
+                if dead:
+                    rep.ok('P3', key, dead, site)
+                    continue
             # unit-enum printers: `_ => unreachable!()` under RustEnum::Unit
             if s['kind'] == 'unreachable' and any(v == 'RustEnum::Unit' for v in arm_variants):
                 if unit_enum_invariant(ctx, prog, rep):
@@ -268,9 +275,11 @@ def abstract(snippet):
     head (`x(`, `x!`, `x::`) nor `self` become `$` — renaming a local variable or parameter does not change the shape."""
     out = []
     sn = norm(snippet)
-    for m in re.finditer(r'[A-Za-z_][A-Za-z0-9_]*|.', sn):
+    for m in re.finditer(r'"(?:[^"\\\\]|\\\\.)*"?|[A-Za-z_][A-Za-z0-9_]*|.', sn):
         t = m.group(0)
-        if re.fullmatch(r'[A-Za-z_][A-Za-z0-9_]*', t):
+        if t.startswith('"'):
+            out.append(t)   # string literals (panic messages) are part of the shape
+        elif re.fullmatch(r'[A-Za-z_][A-Za-z0-9_]*', t):
             before = sn[m.start() - 1] if m.start() > 0 else ''
             after = sn[m.end():m.end() + 2]
             keep = t in ('self', 'Self', 'true', 'false', 'as', 'mut') or (before == '.' and sn[max(0, m.start() - 2):m.start()] != '..') or sn[max(0, m.start() - 2):m.start()] == '::' or after[:1] in ('(', '!') or after == '::' or t[0].isupper()
@@ -278,6 +287,59 @@ def abstract(snippet):
         else:
             out.append(t)
     return ''.join(out)
+
+
+def dead_param_variant(prog, s, arm):
+    """The arm `Enum::X => panic!(..)` matches on a parameter of the function; each caller passes a local that is only
+    ever assigned unit-variant constructors of Enum in the caller's own body, none of them X.  Returns the reason or None."""
+    scr = arm.get('scrut')
+    if not (isinstance(scr, dict) and scr.get('k') == 'atom' and scr.get('param') and not scr.get('path')):
+        return None
+    enum, var = arm['variants'][0].rsplit('::', 1)
+    b = prog.bodies[s['body']]
+    root_key = b.get('root') or s['body']
+    rb = prog.bodies[root_key]
+    pname = scr.get('root')
+    ploc = rb.get('names', {}).get(pname)
+    if not (ploc and re.fullmatch(r'_\d+', ploc)):
+        return None
+    pidx = int(ploc[1:]) - 1
+    callers = [(k, c) for k, cb in prog.bodies.items() for c in cb['calls'] if root_key in prog.targets_of_call(c)]
+    if not callers:
+        return None
+    seen_variants = set()
+    for k, c in callers:
+        cb = prog.bodies[k]
+        if pidx >= len(c['args']):
+            return None
+        m = re.match(r'(?:move|copy) (_\d+)$', c['args'][pidx].strip())
+        if not m:
+            return None
+        flow, todo = set(), [m.group(1)]
+        while todo:
+            x = todo.pop()
+            if x in flow:
+                continue
+            flow.add(x)
+            if int(x[1:]) <= cb.get('arg_count', 0):
+                return None   # comes from the caller's own parameter: unknown
+            defs = [st for blk in cb['blocks'] for st in blk['stmts'] if st.startswith(x + ' = ')]
+            if any(str(cc.get('dest') or '').split(' ')[0] == x for cc in cb['calls']):
+                return None   # produced by a call: unknown
+            for st in defs:
+                rhs = st[len(x) + 3:]
+                mm = re.fullmatch(r'(?:move|copy) (_\d+)', rhs)
+                if mm:
+                    todo.append(mm.group(1))
+                    continue
+                mv = re.fullmatch(r'(?:[A-Za-z_0-9]+::)*' + re.escape(enum.split('::')[-1]) + r'::(\w+)', rhs)
+                if mv:
+                    seen_variants.add(mv.group(1))
+                    continue
+                return None
+    if var in seen_variants or not seen_variants:
+        return None
+    return f"dead arm: no caller of {rb['id']} passes {enum}::{var} (callers construct only {sorted(seen_variants)} in this feature configuration)"
 
 
 def len_guard(ctx, s):
